@@ -191,7 +191,7 @@ impl Property for Prop {
         "C03"
     }
     fn rule(&self) -> &'static str {
-        "bits: for seeded fragment trains (2..6 packets, PDU 1..200 bytes, all label kinds incl. re-use substituted first fragments) built by the real encapsulator: EVERY single bit flip of every packet, EVERY burst (every start bit x length 2..32, all-ones pattern; thorough adds two random interior patterns), truncation at EVERY byte, drop / duplicate / adjacent swap of EVERY fragment, the frag-id field replaced by all 256 values, the CRC trailer replaced by {0, ~crc, crc+1, crc-1, byte rotations, random values}; totlen: the total-length field replaced by all 65536 values; double: seeded pairs of the above faults; reseal: structurally faulted trains whose trailer / total length are recomputed for a wrong interpretation (payload without the dropped fragment, with the duplicate, 16-bit wrapped overlay with >= 64 KiB storage, header of another train, label present but sealed as if re-used, first fragment repeated after an intermediate fragment, an early end fragment followed by more fragments, zero-length PDUs with a bad seal, a valid train interrupted by a first fragment of its own id that the receiver must refuse, a first fragment with an extension header sealed for a gap of stale storage bytes before / after its payload, a train sealed for the label mode (re-use / written) of a train abandoned on the same fragment id just before; refused restarts also with the free list filled up so that the abandoned buffer cannot be given back); every other faulted transfer of the bits / totlen / double generators is fed to a receiver that has just delivered the intact train, and trains of different PDUs spliced on one fragment id; big: trains near 65535 bytes with storage >= 64 KiB incl. over-long trains. Oracle 1 (specification on the received bytes) applies to every run; oracle 2 (no delivery / delivered == sent) to the fault classes the property names. Evaluation = one decap call of a faulted transfer; non-trivial = a faulted transfer (fault actually changed the bytes or the order) that was fed completely; fingerprint = hash(train, fault)."
+        "bits: for seeded fragment trains (2..6 packets, PDU 1..200 bytes, all label kinds incl. re-use substituted first fragments) built by the real encapsulator: EVERY single bit flip of every packet, EVERY burst (every start bit x length 2..32, all-ones pattern; thorough adds two random interior patterns), truncation at EVERY byte, drop / duplicate / adjacent swap of EVERY fragment, the frag-id field replaced by all 256 values, the CRC trailer replaced by {0, ~crc, crc+1, crc-1, byte rotations, random values}; totlen: the total-length field replaced by all 65536 values; double: seeded pairs of the above faults; reseal: structurally faulted trains whose trailer / total length are recomputed for a wrong interpretation (payload without the dropped fragment, with the duplicate, 16-bit wrapped overlay with >= 64 KiB storage, header of another train, label present but sealed as if re-used, first fragment repeated after an intermediate fragment, an early end fragment followed by more fragments, zero-length PDUs with a bad seal, a valid train interrupted by a first fragment of its own id that the receiver must refuse, a first fragment with an extension header sealed for a gap of stale storage bytes before / after its payload, a train sealed for the label mode (re-use / written) of a train abandoned on the same fragment id just before; a train whose total length is below protocol type + label sealed for exactly its fields; refused restarts also with the free list filled up so that the abandoned buffer cannot be given back); every other faulted transfer of the bits / totlen / double generators is fed to a receiver that has just delivered the intact train, and trains of different PDUs spliced on one fragment id; long: PDUs of 4 KiB..64 KiB fragmented by the real encapsulator, intact and with sampled bit flips / 32-bit bursts spread over the whole PDU (incl. offsets around 4095 and the last bytes) and a dropped fragment; big: trains near 65535 bytes with storage >= 64 KiB incl. over-long trains. Oracle 1 (specification on the received bytes) applies to every run; oracle 2 (no delivery / delivered == sent) to the fault classes the property names. Evaluation = one decap call of a faulted transfer; non-trivial = a faulted transfer (fault actually changed the bytes or the order) that was fed completely; fingerprint = hash(train, fault)."
     }
     fn gens(&self, cx: &Cx) -> Vec<Gen> {
         vec![
@@ -200,6 +200,7 @@ impl Property for Prop {
             Gen { name: "double", count: cx.n(20_000, 2_000_000), exhaustive: false },
             Gen { name: "reseal", count: cx.n(20_000, 1_000_000), exhaustive: false },
             Gen { name: "big", count: cx.n(48, 3_000), exhaustive: false },
+            Gen { name: "long", count: cx.n(400, 60_000), exhaustive: false },
         ]
     }
     fn run_key(&self, cx: &Cx, gen: &str, key: u64, rep: &mut Report) {
@@ -443,7 +444,7 @@ impl Property for Prop {
                     v
                 };
                 let all: Vec<usize> = (0..nseg).collect();
-                let variant = rng.below(14);
+                let variant = rng.below(15);
                 let mut primed_deliveries = 0usize;
                 let (pkts, class): (Vec<Vec<u8>>, &str) = match variant {
                     0 => {
@@ -608,6 +609,15 @@ impl Property for Prop {
                         p.push(mk_end(id, &segs[nseg - 1], crc));
                         (p, if variant == 11 { "reseal-gap-of-stale-bytes-after-first-fragment" } else { "reseal-gap-of-stale-bytes-before-first-fragment" })
                     }
+                    14 => {
+                        // a train whose announced total length is SMALLER than protocol type + label (0 .. 2 + label - 1),
+                        // with an empty or tiny payload and a trailer that is right for exactly these fields
+                        let t = rng.below(2 + wl.len()) as u16;
+                        let pay: Vec<u8> = if rng.chance(1, 2) { vec![] } else { rng.bytes(1) };
+                        let crc = fr.gse(t, ptype, &wl, &pay);
+                        let p = vec![mk_first(lt, &wl, id, t, ptype, &[]), mk_end(id, &pay, crc)];
+                        (p, "reseal-total-length-below-type-and-label")
+                    }
                     13 if lt < 2 => {
                         // a train abandoned on the same fragment id in the OTHER label mode, then a train sealed for the
                         // abandoned train's mode: (a) re-use first fragment abandoned, then an explicit-label train sealed
@@ -682,6 +692,105 @@ impl Property for Prop {
                 }
                 rep.count(&format!("c03.{}.{}", class, if delivered { "delivered" } else { "rejected" }));
                 rep.nontrivial(mix(key, fnv(&pkts.concat())));
+            }
+            "long" => {
+                // PDUs of 4 KiB .. 64 KiB fragmented by the real encapsulator (fragments of up to 4097 bytes): the intact
+                // train, then sampled single-bit flips and 32-bit bursts at positions spread over the whole PDU (first
+                // bytes, around 4095, the last bytes), a dropped and a duplicated fragment
+                let plen = match rng.below(4) {
+                    0 => rng.range(4090, 4200),
+                    1 => rng.range(4200, 9000),
+                    2 => rng.range(9000, 30000),
+                    _ => rng.range(30000, 65520),
+                };
+                let lk = rng.below(3);
+                let label = gen_label(&mut rng, [0usize, 2, 4][lk]);
+                let pdu = rng.bytes(plen);
+                let ptype = gen_user_ptype(&mut rng);
+                let id = rng.byte();
+                let mut enc = Encapsulator::new(DefaultCrc {});
+                let meta = EncapMetadata::new(ptype, label);
+                let mut r2 = rng.clone();
+                let t = match build_train(&mut enc, &pdu, id, meta, None, |_| [4097usize, 4097, 2000, 1000, 70000][r2.below(5)], 200) {
+                    Ok(t) if t.complete && t.pkts.len() >= 2 => t,
+                    _ => {
+                        rep.count("c03.long-train-not-built");
+                        return;
+                    }
+                };
+                let table = MandTable::none();
+                let run = |pkts: &[Vec<u8>], class: &str, must_not_deliver: bool, rep: &mut Report| -> bool {
+                    let mut d = plain_dec(2, plen, 2, plen, table.clone());
+                    let mut rx = RxSpec::new(table.clone());
+                    let mut delivered = false;
+                    for p in pkts {
+                        rep.eval();
+                        let r = dec_guard(&mut d, p);
+                        if r.is_err() {
+                            rep.count("c03.receiver-panic");
+                            return false;
+                        }
+                        rx.observe(p, &r, RX_C03, class, rep, &replay);
+                        if let Ok(Ok((DecapStatus::CompletedPkt(b, m), _))) = &r {
+                            delivered = true;
+                            if must_not_deliver {
+                                rep.violation("C03", format!("delivered-despite-fault:{}", class), || format!("{}: PDU of {} bytes in {} fragments: a PDU ({} bytes, equal to the original: {}) was delivered", class, plen, pkts.len(), m.pdu_len(), m.pdu_len() == plen && b[..plen] == pdu[..]), &replay);
+                            }
+                        }
+                    }
+                    delivered
+                };
+                if !run(&t.pkts, "long-intact", false, rep) {
+                    rep.count("c03.long-intact-not-delivered");
+                    return;
+                }
+                rep.count("c03.long-trains");
+                // payload offsets -> (packet, byte) via the parsed payload ranges
+                let mut map: Vec<(usize, usize, usize)> = Vec::new(); // (pdu offset of first payload byte, packet, offset in packet)
+                let mut off = 0usize;
+                for (pi, p) in t.pkts.iter().enumerate() {
+                    if let Ok(pp) = wire::parse(p, &table) {
+                        map.push((off, pi, pp.payload.start));
+                        off += pp.payload.len();
+                    }
+                }
+                let locate = |o: usize| -> Option<(usize, usize)> {
+                    let mut best = None;
+                    for (start, pi, po) in &map {
+                        if *start <= o {
+                            best = Some((*pi, po + (o - start)));
+                        }
+                    }
+                    best
+                };
+                let mut positions: Vec<usize> = vec![0, 1, 4093, 4094, 4095, 4096, 4097, plen / 2, plen - 5, plen - 1];
+                for _ in 0..6 {
+                    positions.push(rng.below(plen));
+                }
+                for o in positions {
+                    if o >= plen {
+                        continue;
+                    }
+                    if let Some((pi, bo)) = locate(o) {
+                        if bo < t.pkts[pi].len() {
+                            let mut pk = t.pkts.clone();
+                            pk[pi][bo] ^= 1 << rng.below(8);
+                            run(&pk, "long-bitflip", true, rep);
+                            if bo + 4 <= t.pkts[pi].len() {
+                                let mut pk = t.pkts.clone();
+                                for k in 0..4 {
+                                    pk[pi][bo + k] ^= 0xFF;
+                                }
+                                run(&pk, "long-burst-32", true, rep);
+                            }
+                        }
+                    }
+                }
+                let di = 1 + rng.below(t.pkts.len() - 1);
+                let mut pk = t.pkts.clone();
+                pk.remove(di.min(pk.len() - 1));
+                run(&pk, "long-drop", true, rep);
+                rep.nontrivial(mix(0x10A6, mix(key, plen as u64)));
             }
             "big" => {
                 // storage >= 64 KiB; trains whose received payload approaches / exceeds 65535 bytes, with a
